@@ -1249,7 +1249,7 @@ Proof.
   - (* Push *)
     cbn [no_alias] in Hna. rewrite Hna.
     destruct (d_name d =? 0) eqn:En.
-    + destruct ig; [exact Hinv|].
+    + destruct ig; [destruct (is_manifest (d_mt d) && negb (verify d c)); exact Hinv|].
       destruct (get gkey_eqb (gk d) (f_cas s)) eqn:Ec; [exact Hinv|].
       destruct (verify d (limit_reader d c)) eqn:V; [|exact Hinv].
       apply file_index_after_inv. now apply file_inv_unnamed.
@@ -1302,7 +1302,7 @@ Proof.
   pose proof Hinv as [A B C]. destruct o; cbn [file_step]; try reflexivity.
   - cbn [no_alias] in Hnao. rewrite Hnao.
     destruct (d_name d =? 0) eqn:En.
-    + destruct ig; [reflexivity|].
+    + destruct ig; [destruct (is_manifest (d_mt d) && negb (verify d c)); reflexivity|].
       destruct (get gkey_eqb (gk d) (f_cas s)) eqn:Ec; [reflexivity|].
       destruct (verify d (limit_reader d c)) eqn:V; [|reflexivity].
       rewrite file_index_after_succeeds; [discriminate | now apply file_inv_unnamed | |].
